@@ -334,46 +334,6 @@ def r13f(ctx, run):
         "f64": Variant("Ty::Float", {"0": 64}), "bool": Variant("Ty::Bool"), "char": Variant("Ty::Char"), "str": Variant("Ty::String"),
     }
     weak = {"{int}": Variant("Ty::IInt", {"0": 0}), "{uint}": Variant("Ty::UInt", {"0": 0}), "{float}": Variant("Ty::Float", {"0": 0})}
-    name = hs.param_names()[1]
-
-    from symint import SymInterp
-
-    def ty_method(recv, m):
-        if not (isinstance(recv, Variant) and recv.path.startswith("Ty::")) or m in ("has_semantics_of", "can_fit_into", "max", "clone", "into", "as_ref"):
-            return None
-        c = [f for f in ctx.syn.fns_in("hir/src/common/ty.rs") if f.qual == "Ty::" + m and f.body is not None]
-        return c[0] if len(c) == 1 else None
-
-    def mk_interp(**kw):
-        it = SymInterp(**kw)
-        it.method_resolver = ty_method
-        it.methods.setdefault("absolute_ty", lambda i, r, a: absolute(r))
-        return it
-
-    def absolute(v):
-        while isinstance(v, Variant) and v.last in ("Distinct", "EnumVariant"):
-            v = v.payload["sub_ty"]
-        return v
-
-    def run_hs(a, b, depth=0):
-        if depth > 4:
-            raise CannotEstablish("recursion depth")
-
-        def fits(i, r, args):
-            # the acceptance relation on these samples: identical types fit; a nominal wrapper never fits a plain type (R13.a);
-            # a weak literal type fits the sized/weak types of its class
-            x, y = r, args[0]
-            if x == y:
-                return True
-            if x.last in ("Distinct", "EnumVariant") or y.last in ("Distinct", "EnumVariant"):
-                return False
-            if x.last in ("IInt", "UInt") and x.payload.get("0") == 0 and y.last in ("IInt", "UInt", "Float"):
-                return True
-            if x.last == "Float" and x.payload.get("0") == 0 and y.last == "Float":
-                return True
-            return False
-        it = mk_interp(methods={"has_semantics_of": lambda i, r, args: run_hs(r, args[0], depth + 1), "can_fit_into": fits})
-        return it.run_fn(hs, {"self": a, name: b})
     # Ty::max, has_semantics_of and can_fit_into all evaluated from their own source (the evaluator of C12): no model of the acceptance relation of
     # my own stands in for them (an earlier version answered `plain fits distinct` with false, which the code does not, and went blind to seed C13-2
     # once Ty::max began to ask can_fit_into)
